@@ -227,6 +227,34 @@ def c25(c):
     c.cov['replay_counters'] = total['counters']
 
 
+def c05_keyed(c):
+    """C05 on the shared-poll track path (called from fam/lifecycle.py's C05 check): TrackClose.tla = handleTrack as
+    validate / OnTrack callback / GetSharedPollChannelOptions / trackKeys / commit under c.mu with the generation
+    re-check / reply + OnCommandProcessed / keyed-hub join, interleaved with close / unsubscribe / resubscribe of the
+    same connection. TLC exhaustive on the reference; the counterexamples of the two as-coded variants (re-check hoisted
+    out of the commit; no re-check at the hub join) and simulated behaviours are replayed with the track command parked
+    in the application callbacks; verdict: after the end of the subscription the OnSharedPoll backend is no longer asked
+    for the channel's keys, nothing of the connection is left in the keyed hub / SharedPollManager / Node.Hub()."""
+    binp = c.go_build('keyed')
+    c._specdir('SharedPoll')
+    out = _par([_exh(c, 'SharedPoll', 'TrackClose', 'tc_ref.cfg'),
+                _witness(c, 'SharedPoll', 'TrackClose', 'tc_seeded.cfg'),
+                _witness(c, 'SharedPoll', 'TrackClose', 'tc_head.cfg'),
+                _sim(c, 'SharedPoll', 'TrackClose', 'tc_sim.cfg', 120 if c.tier == 'quick' else 1200, 14)])
+    res = c.harness(binp, 'trackclose', {'behaviours': [out[1], out[2]] + out[3]}, timeout=900)
+    for v in res.get('violations') or []:
+        if v.get('prop') == 'C05':
+            c.violation(v.get('sig', ''), v.get('what', ''), v.get('replay'))
+    for d in res.get('drifts') or []:
+        c.drifts.append(d)
+    c.cov['traces_validated_against_impl'] += res['completed']
+    c.cov['evaluations'] += res['executed']
+    c.cov['distinct_nontrivial'] += res['nontrivial']
+    c.cov['samples'] += res['samples'][:1]
+    c.assumptions += ['keyed track path: one connection, one key; gates only where the code calls the application (OnTrack, GetSharedPollChannelOptions, '
+                      'OnCommandProcessed); close / unsubscribe run to completion while the track command is parked']
+
+
 CHECKS = {'C14': c14, 'C25': c25}
 _n14 = ('Bounds: exhaustive (reference design): stream paths <=3 publications (4 thorough), history size 2, <=1 wire fault (2 thorough), 2 subscribe '
         'sessions (3 thorough), kinds positioned / recoverable / non-positioned with and without history, tags filter on/off, channel medium '
